@@ -87,6 +87,15 @@ type service struct {
 	// such as ClientId, KeepAlive, Username, etc
 	sess *sessions.Session
 
+	// What this connection needs at its end, taken from its own CONNECT. The
+	// session object is not the place to look: a later connection with the same
+	// client id (the client reconnected before the server noticed that this
+	// connection is gone) gets the same session and updates it from its CONNECT
+	// while this connection is still there.
+	clientID     string
+	cleanSession bool
+	will         *message.PublishMessage
+
 	// Wait for the various goroutines to finish starting and stopping
 	wgStarted sync.WaitGroup
 	wgStopped sync.WaitGroup
@@ -265,10 +274,11 @@ func (svc *service) stop() {
 		}
 	}
 
-	// Publish will message if WillFlag is set. Server side only.
-	if !svc.client && svc.sess.Cmsg.WillFlag() {
+	// Publish the will message of this connection, if it has one (a DISCONNECT
+	// removed it). Server side only.
+	if !svc.client && svc.will != nil {
 		log.Warningf("(%s) Connection unexpectedly closed, sending will message", svc.cid())
-		svc.onPublish(svc.sess.Will)
+		svc.onPublish(svc.will)
 	}
 
 	// Remove the client topics manager
@@ -277,8 +287,8 @@ func (svc *service) stop() {
 	}
 
 	// Remove the session from session store if it's suppose to be clean session
-	if svc.sess.Cmsg.CleanSession() && svc.sessMgr != nil {
-		svc.sessMgr.Del(svc.sess.ID())
+	if svc.cleanSession && svc.sessMgr != nil {
+		svc.sessMgr.Del(svc.clientID)
 	}
 
 	svc.conn = nil
@@ -541,5 +551,20 @@ func (svc *service) isDone() bool {
 }
 
 func (svc *service) cid() string {
-	return fmt.Sprintf("%d/%s", svc.id, svc.sess.ID())
+	return fmt.Sprintf("%d/%s", svc.id, svc.clientID)
+}
+
+// setConnect remembers what the connection needs from its CONNECT message when
+// it ends: the client id, the clean session flag and the will.
+func (svc *service) setConnect(req *message.ConnectMessage) {
+	svc.clientID = string(req.ClientID())
+	svc.cleanSession = req.CleanSession()
+	svc.will = nil
+	if req.WillFlag() {
+		svc.will = message.NewPublishMessage()
+		svc.will.SetQoS(req.WillQos())
+		svc.will.SetTopic(req.WillTopic())
+		svc.will.SetPayload(req.WillMessage())
+		svc.will.SetRetain(req.WillRetain())
+	}
 }
